@@ -6,7 +6,7 @@ from lib.coqterm import cbytes, cbool, copt, cZ, cN, clist, cpair
 
 ID = "C33"
 QUICK_N = 3000
-THOROUGH_N = 60000
+THOROUGH_N = 40000
 SHARD = 300
 COQ_PRELUDE = "From Coq Require Import NArith ZArith.\nFrom MV Require Import Model.Url.\n"
 RULE = ("55% edit histories (1-5 of url/host/host-as-bytes/port assignments) on a real Request built from generated "
@@ -543,13 +543,13 @@ def oracle(case, obs):
                     v.append({"key": "port-zero-read-as-default" if pz else "url-components",
                               "what": f"{where}: components read back {got}, URL says {want}"})
                 elif b2s(unhx(ob["url"])) != _canon_url(*want):
-                    v.append({"key": "ipv6-unbracketed" if ":" in host else "url-readback",
+                    v.append({"key": "ipv6-unbracketed" if ":" in host and "[" not in b2s(unhx(ob["url"])) else "url-readback",
                               "what": f"{where}: url reads back {b2s(unhx(ob['url']))!r}, equivalent form is {_canon_url(*want)!r}"})
             if scheme in DEFAULT and not connect:
                 if not (ob["re_st"] == 0 and ob["re_same"] and ob["re_url"] == ob["url"]):
                     key = ("idn-readback-not-reassignable" if any(ord(c) > 127 for c in host)
                            else "ipv6-trailing-dot-host" if ":" in host and host.endswith(".") and ob["re_st"] == 1 and "[" in b2s(unhx(ob["url"]))
-                           else "ipv6-unbracketed" if ":" in host else "url-reassign")
+                           else "ipv6-unbracketed" if ":" in host and "[" not in b2s(unhx(ob["url"])) else "url-reassign")
                     v.append({"key": key, "what": f"{where}: url reads back {b2s(unhx(ob['url']))!r}; assigning it again -> status {ob['re_st']}, "
                                                   f"state unchanged={ob['re_same']}"})
         elif o["op"] == "host":
